@@ -15,6 +15,12 @@ impl Extensions {
     pub uninterp spec fn empty_spec() -> Extensions;
     #[verifier::external_body]
     pub fn new() -> (r: Extensions) ensures r == Extensions::empty_spec() { unimplemented!() }
+    // A-http-38: Extensions::clone is structural; extend merges (the entries of `other` win)
+    pub uninterp spec fn merged(a: Extensions, b: Extensions) -> Extensions;
+    #[verifier::external_body]
+    pub fn clone(&self) -> (r: Extensions) ensures r == *self { unimplemented!() }
+    #[verifier::external_body]
+    pub fn extend(&mut self, other: Extensions) ensures *final(self) == Extensions::merged(*old(self), other) { unimplemented!() }
 }
 impl http::Uri {
     // A-http-36: Uri::clone is structural
@@ -134,7 +140,10 @@ def build():
     u.close('}')
 
     # ---- interceptor ----
-    u.item(IC, 'trait', 'Interceptor')
+    u.item(IC, 'trait', 'Interceptor', edits=[
+        # contract splice: an interceptor is any function of (its state, the request): `decides`
+        lambda t: t.sub_code('S-contract', r'fn call\(&mut self, request: crate::Request<\(\)>\) -> Result<crate::Request<\(\)>, Status>;',
+                             'spec fn decides(&self, request: crate::Request<()>) -> Result<crate::Request<()>, Status>;\n    fn call(&mut self, request: crate::Request<()>) -> (r: Result<crate::Request<()>, Status>)\n        ensures r == old(self).decides(request);')])
     u.item(IC, 'struct', 'InterceptedService')
     u.item(IC, 'enum', 'Kind')
     u.item(IC, 'struct', 'ResponseFuture')
@@ -160,7 +169,13 @@ where
                     lambda t: t.sub_code('R12', r'fn call\(', 'fn call<ReqBody>('),
                     lambda t: t.edit('R12', len(t.t.rstrip()), len(t.t.rstrip()), ' where S: Service<http::Request<ReqBody>>')],
          ensures=[
-             Clause('V1_veto_never_reaches_the_service', 'r.kind is Status ==> final(self).inner.log() == old(self).inner.log() && r.kind matches Kind::Status(Some(_))', ['C12']),
+             Clause('V1_veto_never_reaches_the_service_and_hands_back_that_status',
+                    '''old(self).interceptor.decides(Request { metadata: MetadataMap { headers: req.headers }, extensions: req.extensions, message: () }) matches Err(st)
+                ==> final(self).inner.log() == old(self).inner.log() && r.kind == Kind::<S::Future>::Status(Some(st))''', ['C12']),
+             Clause('V0_outcome_follows_the_interceptor', '''r.kind is Status <==> old(self).interceptor.decides(Request { metadata: MetadataMap { headers: req.headers }, extensions: req.extensions, message: () }) is Err''', ['C12']),
+             Clause('V2b_service_sees_the_interceptors_metadata_and_extensions',
+                    '''old(self).interceptor.decides(Request { metadata: MetadataMap { headers: req.headers }, extensions: req.extensions, message: () }) matches Ok(rq)
+                ==> final(self).inner.log().len() > 0 && final(self).inner.log().last().headers@ == rq.metadata.headers@ && final(self).inner.log().last().extensions == rq.extensions''', ['C12']),
              Clause('V2_accept_exactly_one_call_with_original_uri_method_version_body',
                     '''r.kind is Future ==> final(self).inner.log().len() == old(self).inner.log().len() + 1
                 && final(self).inner.log().take(old(self).inner.log().len() as int) == old(self).inner.log() && ({
